@@ -6,6 +6,7 @@ from ..models.fs import comp_key
 BOUNDS = {"histories": "keys a and b sharing one content, c with distinct content, d never written; then one removal operation "
                        "(remove / remove_hash / remove_fully / clear) aimed at any of them; optionally a second write of the key before removal "
                        "(several records in the bucket) and explicit symbolic timestamps",
+          "shards": "the two contents in different shard directories, and (remove_hash / remove_fully) in the same first-level shard directory",
           "frame": "the difference between the filesystem before and after the operation is compared path by path",
           "outside": "longer histories; concurrent use during clear/remove_fully (excluded by the property)"}
 
@@ -24,12 +25,15 @@ def snapshot(scn):
     return out
 
 
-def removal(ctx, op, target, rewrite, explicit_time, api):
+def removal(ctx, op, target, rewrite, explicit_time, api, shard=False):
     scn = ctx.new_scn(api=api)
     I = scn.s.I
     D, E = scn.blob("D"), scn.blob("E")
     scn.distinct(D, E)
-    tag = "C09:%s:%s:%s%s%s" % (api, op, target, ":rewritten" if rewrite else "", ":times" if explicit_time else "")
+    if shard:
+        # the two contents live in the same first-level shard directory (content-v2/sha256/xx/)
+        scn.share_shard(D, E)
+    tag = "C09:%s:%s:%s%s%s%s" % (api, op, target, ":rewritten" if rewrite else "", ":times" if explicit_time else "", ":same-shard" if shard else "")
     content = {"a": D, "b": D, "c": E}
     sris = {}
 
@@ -164,4 +168,7 @@ def tasks(tier, flavours):
                         if et and (tier == "quick" and (fl != "sync" and op not in ("remove", "remove_fully"))):
                             continue
                         out.append(dict(module="C09", family="removal", flavour=fl, params=dict(op=op, target=t, rewrite=rewrite, explicit_time=et, api=api)))
+            if op in ("remove_hash", "remove_fully"):
+                for t in ("a", "c"):
+                    out.append(dict(module="C09", family="removal", flavour=fl, params=dict(op=op, target=t, rewrite=False, explicit_time=False, api=api, shard=True)))
     return out
